@@ -32,7 +32,27 @@ func genUnmarshalCases(r *rng, n int, emit func(string, ...string), forceOpts fu
 		fault := false
 		var data []byte
 		truth := ""
-		switch k := sub.intn(12); {
+		switch k := sub.intn(13); {
+		case k == 12: // a clean, truthful HTTP record with ONE header line around / beyond the size of a 4096-byte read buffer:
+			// nothing is missing, so no repair may touch it (syntax repair on or off)
+			for tries := 0; tries < 60 && !(g.httpHead >= 0 && (g.rtype == "response" || g.rtype == "request") && !g.badHead); tries++ {
+				g = genRecord(sub)
+			}
+			if g.httpHead >= 0 && !g.badHead {
+				first := "HTTP/1.1 200 OK\r\n"
+				if g.rtype == "request" {
+					first = "GET /long HTTP/1.1\r\nHost: example.com\r\n"
+				}
+				n := pick(sub, []int{4078, 4079, 4080, 4081, 4082, 4083, 4084, 5000, 8179, 8180, 8181, 20000})
+				head := first + "X-Long-Line: " + strings.Repeat("q", n) + "\r\n\r\n"
+				g.block = []byte(head + pick(sub, payloadPool))
+				g.httpHead = len(head)
+			}
+			g.declare(sub, false)
+			data = g.serialize()
+			truth = g.truth
+			o.fixsyn = sub.chance(3, 4)
+			stat("unm-class", "http-long-line")
 		case k == 11: // an HTTP record whose Content-Type is spelled unusually (white space around ';', letter case, further
 			// parameters), with a WRONG payload digest and everything else truthful: the block must still be taken for HTTP
 			for tries := 0; tries < 60 && !(g.httpHead >= 0 && (g.rtype == "response" || g.rtype == "request") && !g.badHead); tries++ {
